@@ -47,8 +47,65 @@ let run_created line =
      | _ -> report "BAD" "created head" line)
   | _ -> report "BAD" "unparsable case line" line
 
+(* V lines: the real `scrut update --convert`, then the real `scrut test` on the converted document.  Every test of the
+   source document has no expectation lines, so every line of its output is generated anew: the converted document is the
+   create-flavour rendering of each test in the other format, joined by two blank lines.  A Cram source carries its format
+   defaults into the Markdown header (what differs from the Markdown defaults, written as the one-liner). *)
+let cfg_of_tcfg (t : tcfg) : ycfg =
+  { yempty with y_os = t.output_stream; y_kc = t.keep_crlf; y_sk = t.skip_code }
+let run_converted line =
+  match split_on '|' (String.sub line 2 (String.length line - 2)) with
+  | [head; conv; info] ->
+    (match split_on ' ' head with
+     | [dir; esc; tests] ->
+       let from_cram = (dir = "c2m") in
+       let md = (match esc with "ascii" -> Ascii | "unicode" -> Unicode | _ -> if from_cram then Ascii else Unicode) in
+       let has s sub = (let n = String.length sub in let rec go i = i + n <= String.length s && (String.sub s i n = sub || go (i + 1)) in go 0) in
+       let ts = List.map (fun t -> match split_on ':' t with
+           | [title; cmd; code; out] -> (bytes_of_hex title, bytes_of_hex cmd, int_of_string code, bytes_of_hex out)
+           | _ -> ([], [], 0, [])) (split_on ',' tests) in
+       bump (Printf.sprintf "converted:%s/escaping:%s/tests:%d" dir esc (List.length ts));
+       note_distinct head true; sample (if String.length line > 300 then String.sub line 0 300 else line);
+       if not (has info "update=0") then report "SPEC:C09" ("`scrut update --convert` failed: " ^ info) line
+       else begin
+         let dl = str_lines (match utf8_decode (bytes_of_hex conv) with Some t -> t | None -> []) in
+         let suffix = if from_cram then gen_config_suffix (cfg_of_tcfg tc_default_cram) (cfg_of_tcfg tc_default_markdown) else [] in
+         let crlf_matters = ref false in
+         let one (title, cmd, code, raw) =
+           (* a Markdown test translates CR LF before the output is compared or written; a Cram test keeps it *)
+           let outb = if from_cram then raw else replace_crlf raw in
+           if outb <> raw then crlf_matters := true;
+           let lines = split_lines_keep outb in
+           let title = (match title with [] -> None | t -> Some t) in
+           let codeN = n_of_int code in
+           if from_cram then begin
+             let rendered = render_md (gen_md_doc md title cmd [] lines codeN) in
+             (* the header of the block: the fence line is the first line that consists of backticks and the language *)
+             let is_fence l = (let rec bt = function c :: r when int_of_n c = 96 -> bt r | r -> r in
+                               match l with c :: _ when int_of_n c = 96 -> bt l = List.map (fun c -> n_of_int (Char.code c)) (List.of_seq (String.to_seq "scrut")) | _ -> false) in
+             let seen = ref false in
+             List.map (fun l -> if (not !seen) && is_fence l then (seen := true; l @ suffix) else l) rendered
+           end else render_cram (gen_cram_doc md title cmd [] lines codeN) in
+         let rec join = function [] -> [] | [d] -> d | d :: r -> d @ [[]; []] @ join r in
+         let model = join (List.map one ts) in
+         if model <> dl then report "DIFF:generated-document" "the document `scrut update --convert` wrote is not the model's rendering of the tests in the other format" line;
+         let first_gt = List.exists (fun (_, _, _, raw) -> match split_lines_keep raw with l :: _ -> starts_with_str l "> " | [] -> false) ts in
+         let dollar = (not from_cram) && List.exists (fun (_, _, _, raw) -> List.exists (fun l -> starts_with_str l "$ ") (split_lines_keep raw)) ts in
+         if not (has info "test=0") then begin
+           if first_gt then report "SPEC:C09" "known:first-line-looks-like-continuation the first output line starts with `> ` and is read back as a continuation of the command" line
+           else if dollar then report "SPEC:C09" "known:cram-dollar-line an output line starting with `$ ` is read back as another command in a Cram document" line
+           else if !crlf_matters then bump "converted:markdown-to-cram with CR LF in the output: the Cram test runs under other defaults (not required by C09)"
+           else report "SPEC:C09" ("the document written by `scrut update --convert` does not pass `scrut test`: " ^ info) line
+         end;
+         if not (has info "source-kept=1") then report "SPEC:C09" "the source document was changed by a conversion" line;
+         if not (has info "leftover=0") then report "SPEC:C18" ("directories left in TMPDIR after convert and test: " ^ info) line
+       end
+     | _ -> report "BAD" "converted head" line)
+  | _ -> report "BAD" "unparsable case line" line
+
 let run () = iter_lines (fun line ->
   if String.length line > 1 && line.[0] = 'J' then run_created line else
+  if String.length line > 1 && line.[0] = 'V' then run_converted line else
   match split_on '|' (String.sub line 2 (String.length line - 2)) with
   | [head; gen; pk; same; vk] ->
     (match split_on ' ' head with
